@@ -54,6 +54,10 @@ func drawItem(rt *rapid.T, kinds []string) item {
 		if rapid.IntRange(0, 11).Draw(rt, "huge") == 0 {
 			// bodies beyond common buffer sizes (4 KiB read-ahead buffers, 1 KiB initial capacity)
 			n := rapid.SampledFrom([]int{1023, 1024, 1025, 4095, 4096, 4097, 6000, 9000}).Draw(rt, "hugelen")
+			if rapid.IntRange(0, 15).Draw(rt, "vast") == 0 {
+				// bodies around and beyond the 16-bit range (a length that is a whole number of 64 KiB blocks, or one off)
+				n = rapid.SampledFrom([]int{65535, 65536, 65537, 70000, 131071, 131072, 131073, 196608, 262144}).Draw(rt, "vastlen")
+			}
 			fill := byte(rapid.IntRange(1, 255).Draw(rt, "fill"))
 			b := make([]byte, n)
 			for i := range b {
